@@ -121,6 +121,8 @@ impl NumSem {
 
     /// apply `f` to every combination of alternatives; the results must agree numerically
     fn combine(&self, alts: &[NAlt], f: &dyn Fn(&[NV]) -> R<NAlt>) -> R<NAlt> {
+        // a zero that may be Integer(0) or Float(+-0) (floor(-0.0), ceil(-0.5), 0.0*-1 ...): its sign is not determined
+        if alts.iter().any(|a| a.0.len() > 1 && a.0.iter().all(|v| v.as_f64() == 0.0)) { self.flags.zero_sign_free.set(true); }
         let mut idx = vec![0usize; alts.len()];
         let mut results: Vec<NV> = Vec::new();
         loop {
